@@ -32,6 +32,7 @@ Effect(opt, f) ==
     [] opt.o = "sanitize" -> f.asan
     [] opt.o = "static"   -> ~f.dynamic
     [] opt.o = "lib"      -> f.ext
+    [] opt.o = "envlib"   -> f.ext2                         \* a library given through LDLIBS (found through LDFLAGS=-L...)
     [] opt.o = "pch"      -> f.pch
     [] OTHER -> TRUE
 \* combinations that the toolchain itself cannot satisfy (not bfg9000's doing)
